@@ -34,6 +34,7 @@ package configs
 //@   props C15
 //@   sweep
 //@   mode nopanic=off
+//@   loop 1: each ncalls(configs.checkQueueMaxApplications) == iter(ncalls(configs.checkQueueMaxApplications)) + 1
 //@   at[nonincreasing] call configs.checkQueueMaxApplications#1: assert cur.MaxApplications == 0 || (child.MaxApplications != 0 && child.MaxApplications <= cur.MaxApplications)
 
 // a user/group limit is accepted only if it fits in the limit in force for the same name (or, failing that, for the
